@@ -669,6 +669,52 @@ def runtime_part(run, tier):
                 run.violation("synapgrad.tensor.Tensor.untracked_result_never_acquires_grad", "%s of a %s (%s): requires_grad=%s, grad_fn %s, .grad %s" %
                               (mname, hname, np.dtype(dt).name, d.requires_grad, "set" if d.grad_fn is not None else "None", "None" if d._grad is None else np.asarray(d._grad).tolist()),
                               key={"made_by": mname, "source": hname}, replay={"made_by": mname, "source": hname, "dtype": np.dtype(dt).name})
+    # "after backward leaves keep their gradient, interior results do not": a leaf is any tensor without a grad_fn that requires grad, HOWEVER it was made -- by a constructor,
+    # by a factory, or as the untracked result of an operation (weights scaled at creation, a detached copy, something computed under no_grad) whose flag is switched on afterwards
+    import synapgrad.functional as F_
+    src = Tensor(np.array([[1.0, -2.0, 0.5], [3.0, 0.25, -1.5]]), requires_grad=True)
+    plain = Tensor(np.array([[1.0, -2.0, 0.5], [3.0, 0.25, -1.5]]))
+
+    def flagged(t):
+        t.requires_grad = True
+        return t
+    makers = [("constructor(requires_grad=True)", lambda: Tensor(plain.data.copy(), requires_grad=True)),
+              ("constructor, flag set afterwards", lambda: flagged(Tensor(plain.data.copy()))),
+              ("factory ones(), flag set afterwards", lambda: flagged(synapgrad.ones((2, 3)))),
+              ("op on untracked operands (x * 0.01), flag set afterwards", lambda: flagged(plain * 0.01)),
+              ("op chain on untracked operands, flag set afterwards", lambda: flagged(F_.exp(plain * 0.5) + 1.0)),
+              ("view op on an untracked operand (transpose twice), flag set afterwards", lambda: flagged(plain.transpose(0, 1).transpose(0, 1))),
+              ("op under no_grad on a tracked operand, flag set afterwards", lambda: flagged(_under(tm.no_grad(), lambda: src * 2.0))),
+              ("detach() of a tracked interior result, flag set afterwards", lambda: flagged((src * 2.0).detach())),
+              ("clone under no_grad, flag set afterwards", lambda: flagged(_under(tm.no_grad(), lambda: src.clone())))]
+    cst = Tensor(np.array([[0.5, 1.5, -1.0], [2.0, -0.5, 1.0]]))
+    for mname, mk_ in makers:
+        run.rt(("late-leaf", mname))
+        try:
+            w = mk_()
+        except Exception:
+            continue            # refusing to switch the flag on is not this clause's business
+        if w.grad_fn is not None or not w.requires_grad:
+            continue
+        bad = None
+        try:
+            mid = w * cst
+            (mid * mid).sum().backward()
+            exp1 = 2 * w.data * cst.data * cst.data
+            if w._grad is None:
+                bad = "has no gradient after backward (a leaf keeps its gradient)"
+            elif not np.allclose(np.asarray(w._grad), exp1):
+                bad = "holds %s after backward, expected %s" % (np.asarray(w._grad).tolist(), exp1.tolist())
+            elif mid._grad is not None:
+                bad = None      # interior release is checked elsewhere
+            if bad is None:
+                (w * cst).sum().backward()
+                if w._grad is None or not np.allclose(np.asarray(w._grad), exp1 + cst.data):
+                    bad = "does not accumulate over a second backward (holds %s, expected %s)" % (None if w._grad is None else np.asarray(w._grad).tolist(), (exp1 + cst.data).tolist())
+        except Exception as e:
+            bad = "backward through it raised %s: %s" % (type(e).__name__, e)
+        if bad:
+            run.violation("synapgrad.tensor.Tensor.backward.leaves_keep_their_gradient", "a leaf made by %s %s" % (mname, bad), key={"leaf_made_by": mname}, replay={"leaf_made_by": mname})
     # toggling requires_grad on non-leaves is refused
     a = Tensor(np.array([1.0]), requires_grad=True)
     y = a * 2.0
